@@ -86,6 +86,9 @@ func AnalyzeMetrics15sShortcut(script *logql_parser.LogQLScript) bool {
 		if ppl.Drop != nil {
 			return false
 		}
+		if ppl.LabelFilter != nil || ppl.LineFormat != nil || ppl.LabelFormat != nil || ppl.Unwrap != nil {
+			return false
+		}
 		if ppl.LineFilter != nil {
 			str, err := ppl.LineFilter.Val.Unquote()
 			if str != "" || err != nil {
